@@ -9,6 +9,7 @@ import (
 	"encoding/xml"
 	"fmt"
 	"io"
+	"sync"
 
 	"mellium.im/xmlstream"
 	"mellium.im/xmpp/internal/attr"
@@ -146,11 +147,37 @@ func (s *Session) IterIQElement(ctx context.Context, payload xml.TokenReader, iq
 	return iterIQ(ctx, iq.Wrap(payload), s)
 }
 
+// errCloser closes the response as soon as reading from it fails.
+// An iterator only closes the reader it iterates over after draining it without
+// an error, and a response that is never closed blocks Serve forever.
+type errCloser struct {
+	xmlstream.TokenReadCloser
+	once sync.Once
+	err  error
+}
+
+func (r *errCloser) Token() (xml.Token, error) {
+	tok, err := r.TokenReadCloser.Token()
+	if err != nil && err != io.EOF {
+		/* #nosec */
+		r.Close()
+	}
+	return tok, err
+}
+
+func (r *errCloser) Close() error {
+	r.once.Do(func() {
+		r.err = r.TokenReadCloser.Close()
+	})
+	return r.err
+}
+
 func iterIQ(ctx context.Context, iq xml.TokenReader, s *Session) (_ *xmlstream.Iter, _ *xml.StartElement, e error) {
 	resp, err := s.SendIQ(ctx, iq)
 	if err != nil {
 		return nil, nil, err
 	}
+	resp = &errCloser{TokenReadCloser: resp}
 	defer func() {
 		if e != nil {
 			/* #nosec */
